@@ -117,6 +117,7 @@ class C07(Prop):
             if i % 9 == 4:
                 c["ops"] += [{"kind": "by_value", "sel": ["by_value", j]} for j in (1, 2, 3)]
             c["with_dev"] = c["cls"].endswith("Carver") and rng.random() < 0.35
+            c["first_small"] = rng.random() < 0.4
             cases.append(c)
         return cases
 
@@ -165,6 +166,14 @@ class C07(Prop):
             return {"skip": "every feature was dropped at fit"}
         out = {"fit_untouched": fit_untouched, "issues": []}
         snap0 = snapshot(obj)
+        small_first = None
+        if case.get("first_small"):
+            # the FIRST transform after fit sees a tiny batch (few modalities); nothing of it may be remembered
+            Xs_, _ = fresh()
+            try:
+                small_first = obj.transform(Xs_.iloc[:2].copy())
+            except Exception:  # noqa: BLE001  (judged below on the full frame)
+                small_first = None
         X, _ = fresh()
         X0 = X.copy(deep=True)
         try:
@@ -173,6 +182,11 @@ class C07(Prop):
             return {"skip": f"transform of the training frame raised {C.exc_class(e)} (C04/C05)"}
         if not frames_equal(X, X0):
             out["issues"].append("transform modified the caller's X although copy=True")
+        if small_first is not None:
+            for f in names:
+                a, b = list(small_first[f]), list(full[f].iloc[:2])
+                if [key(enc(x)) for x in a] != [key(enc(x)) for x in b]:
+                    out["issues"].append(f"a first transform of two rows gives other labels for {f} than the full frame")
         if list(full.index) != list(X0.index) or list(full.columns) != list(X0.columns):
             out["issues"].append("transform does not keep X's index and columns")
         for ex in (EXTRA, EXTRA + "_num"):
